@@ -161,11 +161,11 @@ pub fn for_each_expr(opts: &SpaceOpts, f: &(dyn Fn(&Expr) + Sync)) -> u64 {
             let cased = gen::cased_family();
             cased.par_iter().for_each(|s| visit(s, "cased"));
             if opts.adjacent {
-                let tails = gen::tail_family(opts.position_full >= 2);
+                let tails = gen::tail_family(opts.position_full >= 2 || std::env::var_os("WAXMC_FULL_FAMILIES").is_some());
                 tails.par_iter().for_each(|s| visit(s, "tail"));
             }
             if opts.adjacent {
-                let adjacent = gen::adjacent_family(opts.position_full >= 2);
+                let adjacent = gen::adjacent_family(opts.position_full >= 2 || std::env::var_os("WAXMC_FULL_FAMILIES").is_some());
                 adjacent.par_iter().for_each(|s| visit(s, "adjacent"));
             }
         }
